@@ -246,7 +246,44 @@ fn reader_accepts(img: &[u8]) -> bool {
     r.read(&mut buf).is_ok()
 }
 
+/// the CRC stage in this build, then (if available) the same stage in the crc32c-feature build
 pub fn extra(thorough: bool, seed: u64, deadline: Instant) -> ExtraResult {
+    let mut r = extra_local(thorough, seed, deadline);
+    if let Ok(hw) = std::env::var("MC_HW_EXE") {
+        if std::path::Path::new(&hw).exists() {
+            let secs = deadline.saturating_duration_since(Instant::now()).as_secs().max(20);
+            match std::process::Command::new(&hw).args(["c07extra", if thorough { "thorough" } else { "quick" }, &seed.to_string(), &secs.to_string()]).output() {
+                Ok(o) => {
+                    let text = String::from_utf8_lossy(&o.stdout).to_string();
+                    let mut stat = None;
+                    for l in text.lines() {
+                        let f: Vec<&str> = l.splitn(3, '\t').collect();
+                        match f.as_slice() {
+                            ["VIOL", sig, d] => r.violations.push(ViolationRec { choices: vec![], sig: sig.to_string(), detail: format!("[crc32c-feature build] {d}"), desc: String::new(), kind: "oracle" }),
+                            ["MACH", m] => r.machinery_errors.push(format!("[crc32c-feature build] {m}")),
+                            ["STAT", j] => stat = explore::json::J::parse(j).ok(),
+                            _ => {}
+                        }
+                    }
+                    match stat {
+                        Some(j) => {
+                            if let Some(t) = j.get("two_bit_flips_executed").and_then(|x| x.as_i64()) {
+                                r.transitions += t as u64 + 8192;
+                                r.traces += t as u64 + 8192;
+                            }
+                            r.json.set("crc32c_feature_build", j);
+                        }
+                        None => r.machinery_errors.push(format!("the crc32c-feature build did not report its CRC stage (exit {:?})", o.status.code())),
+                    }
+                }
+                Err(e) => r.machinery_errors.push(format!("cannot run the crc32c-feature build: {e}")),
+            }
+        }
+    }
+    r
+}
+
+pub fn extra_local(thorough: bool, seed: u64, deadline: Instant) -> ExtraResult {
     let t0 = Instant::now();
     let threads = std::thread::available_parallelism().map(|n| n.get()).unwrap_or(8);
     let mut violations: Vec<ViolationRec> = Vec::new();
